@@ -446,7 +446,7 @@ func (st *ccState) doCall(ci int, sp callSpec, attempt int, nth int) *ccCall {
 		// must have finished, in the happens-before sense, when the call returns (it does if
 		// the client runs matchers under the lock the call takes on its way out; it does not if
 		// it runs them unlocked), or a matcher with state races with its caller
-		if m.off && st.cfg.hb && (!m.end.OK || !s.Before(m.end)) {
+		if m.off && st.cfg.hb && st.cfg.mode == modeRouting && (!m.end.OK || !s.Before(m.end)) { // (C10's clause: judged in C10's scenario only)
 			s.Violate("R7-matcher-unordered", "call %d returned while an invocation of its matcher on another goroutine (hand-over at #%d) was not ordered before the return: a matcher that keeps state races with its caller", c.id, m.seq)
 			break
 		}
@@ -475,7 +475,7 @@ func (st *ccState) matcher(c *ccCall, m interface{}) bool {
 		c.offCaller = true // the client runs this call's matcher on a goroutine of its own
 		mr.off = true
 		s.Probe("matcher-invoked-off-the-callers-goroutine")
-		if c.returned {
+		if c.returned && st.cfg.mode == modeRouting {
 			// C10: "none of this involves a data race". A matcher is the caller's code and may keep
 			// state; run by the client on another goroutine after the call has returned it is
 			// unordered with whatever the caller does next.
